@@ -63,9 +63,11 @@ def wiredSids (tr : List Ev) : List Nat :=
     | .wire _ s _ => some s
     | _ => none
 
+/-- a connection was lost, reset or closed (by the peer, by a fault, or by the client itself after an
+    undecodable frame / on reset / on close), or a write went to a dead transport -/
 def hasFault (tr : List Ev) : Bool :=
   tr.any fun
-    | .fault _ | .lost _ _ | .deadWrite _ _ _ | .writeFault _ _ _ | .apiReset _ => true
+    | .fault _ | .lost _ _ | .clientClose _ _ | .deadWrite _ _ _ | .writeFault _ _ _ | .apiReset _ => true
     | _ => false
 
 /-- `xs` is a subsequence of `ys` (order preserved) -/
